@@ -10,14 +10,25 @@ import numpy as np
 warnings.filterwarnings("ignore")
 
 
-def ui_model(d, rng=None, container="set"):
+def assume_map(d, assumptions):
+    """plain symbol -> the same name carrying sympy assumptions (e.g. real=True); applied only at the library's boundary"""
+    import sympy
+    return {s: sympy.Symbol(s.name, **assumptions) for s in list(d.state) + list(d.control) + list(d.calibration)}
+
+
+def ui_model(d, rng=None, container="set", symbol_assumptions=None, **ui_kwargs):
     from formak import ui
+    import sympy
     st, ct, cal = list(d.state), list(d.control), list(d.calibration)
     items = list(d.state_model.items())
+    if symbol_assumptions:
+        am = assume_map(d, symbol_assumptions)
+        st, ct, cal = [am[x] for x in st], [am[x] for x in ct], [am[x] for x in cal]
+        items = [(am[k], sympy.sympify(v).xreplace(am)) for k, v in items]
     if rng is not None:
         rng.shuffle(st); rng.shuffle(ct); rng.shuffle(cal); rng.shuffle(items)
     conv = set if container == "set" else list
-    return ui.Model(dt=d.dt, state=conv(st), control=conv(ct), state_model=dict(items), calibration=conv(cal))
+    return ui.Model(dt=d.dt, state=conv(st), control=conv(ct), state_model=dict(items), calibration=conv(cal), **ui_kwargs)
 
 
 def quiet():
